@@ -59,6 +59,9 @@ Definition date_to_unixtime (date : Z) : Z :=
   days_from_civil (date / 10000) (date / 100 mod 100) (date mod 100) * 86400.
 Definition unixtime_to_date (t : Z) : Z :=
   let '(y, m, d) := civil_from_days (day_of t) in y * 10000 + m * 100 + d.
+(* --list-dates: the date and the clock time (hour, minute, second) of a unix time *)
+Definition date_clock (t : Z) : Z * Z * Z * Z :=
+  let diff := t mod 86400 in (unixtime_to_date t, diff / 3600, (diff mod 3600) / 60, diff mod 60).
 (* matplotlib date number (days since 1970-01-01 for the default epoch): unixtime / 86400 *)
 Definition date_to_daynum (date : Z) : Z :=
   days_from_civil (date / 10000) (date / 100 mod 100) (date mod 100).
